@@ -651,6 +651,17 @@ func (rs *runState) exec(task, step int, op core.Op) {
 		}
 		// Txs are chosen per block at connect time from the mempool as it is then
 		disc, conn := x.reorgWithFill(depth, blocks, r, int(op.Arg(2)))
+		if x.running {
+			// remember which transactions a reorg un-confirmed while the
+			// wallet was up, having been confirmed when it was last started
+			for _, b := range disc {
+				for _, t := range b.Msg.Transactions {
+					if h := t.TxHash(); x.confirmedAtStart[h] {
+						x.unconfirmedByReorgAfterStart[h] = true
+					}
+				}
+			}
+		}
 		env.Count("op.reorg")
 		env.Eff()
 		if depth > 1 {
@@ -836,6 +847,12 @@ func (rs *runState) exec(task, step int, op core.Op) {
 				return
 			}
 			x.lockedOps = map[wire.OutPoint]bool{} // LockOutpoint is in-memory state of the wallet
+			x.confirmedAtStart = map[chainhash.Hash]bool{}
+			for _, t := range x.sent {
+				if h := t.TxHash(); x.node.Confirmed(h) >= 0 {
+					x.confirmedAtStart[h] = true
+				}
+			}
 			st := x.w.Manager.SyncedTo()
 			if b := x.node.BlockByHash(&st.Hash); b == nil || !x.node.OnBest(b) {
 				env.Count("probe.restart-tip-not-on-chain")
